@@ -226,6 +226,18 @@ def run(ctx, pid, bdir=None):
                         if r["res"] is None:
                             why = "gama-g3 %s (%s) gives no results: %s" % (f, a, (r["out"] + r["err"]).strip()[-200:]); break
                         res = r["res"]
+                        otxt = ""
+                        op = os.path.join(ctx.scratch, "dir_%s_%s.%s.out.xml" % (case["id"], re.sub(r"\W", "_", f), a))
+                        if os.path.exists(op):
+                            otxt = open(op, encoding="latin-1").read()
+                        for rx in case.get("require", []):
+                            if not re.search(rx, otxt, re.S):
+                                why = "gama-g3 %s (%s): the results do not contain /%s/" % (f, a, rx); break
+                        for rx in case.get("forbid", []):
+                            if re.search(rx, otxt, re.S):
+                                why = "gama-g3 %s (%s): the results contain /%s/" % (f, a, rx); break
+                        if why:
+                            break
                         for k, v in case.get("expect", {}).items():
                             if res[k] != v:
                                 why = "gama-g3 %s (%s): %s %d, expected %d" % (f, a, k, res[k], v); break
